@@ -28,14 +28,14 @@ import (
 func init() {
 	core.Register(&core.Property{
 		ID:   "C03",
-		Rule: "generated programs (every node kind, every function of the table) and a fixed list of aliasing-sensitive programs x generated resources of every R4 type x environment variables that alias the resource (%r the resource, %kids a collection sharing the backing array of a caller-held slice, %sub a sub-slice with spare capacity, %e an empty collection with spare capacity, sentinels in every spare region); before/after every Evaluate (successful or not): deterministic proto bytes of the resource and of every env element, slice header and whole capacity region of every env collection, reflect-based deep digest of the compiled expression; every FHIR element in a result must be one of the input's own nodes. distinct_nontrivial = distinct (program shape, resource type) evaluations that returned at least one item or an error after partial evaluation",
+		Rule: "generated programs (every node kind, every function of the table), every function of the table x 10 receivers x 80 argument lists of arity 0..3 built from aliasing collections and non-literal values, and a fixed list of aliasing-sensitive programs x generated resources of every R4 type x environment variables that alias the resource (%r the resource, %kids a collection sharing the backing array of a caller-held slice, %sub a sub-slice with spare capacity, %e an empty collection with spare capacity, sentinels in every spare region); before/after every Evaluate (successful or not): deterministic proto bytes of the resource and of every env element, slice header and whole capacity region of every env collection, reflect-based deep digest of the compiled expression; every FHIR element in a result must be one of the input's own nodes. distinct_nontrivial = distinct (program shape, resource type) evaluations that returned at least one item or an error after partial evaluation",
 		Assumptions: []string{"typed-reference strings and elements under `contained` are synthesized/unpacked into fresh objects by design (compared by value)",
 			"Mutable() on an empty list is invisible in proto semantics and is not flagged"},
 		Run:    runC03,
 		Checks: map[string]func(*core.Env, []json.RawMessage){"prog": replayC03},
 		Threshold: func(m *core.Merged) []string {
 			var r []string
-			for _, k := range []string{"evaluated", "returned-elements", "errored", "aliasing-program", "generated-program", "spare-capacity-checked", "expression-digest"} {
+			for _, k := range []string{"evaluated", "returned-elements", "errored", "aliasing-program", "generated-program", "spare-capacity-checked", "expression-digest", "table-args"} {
 				if m.Cover[k] == 0 {
 					r = append(r, "never observed: "+k)
 				}
@@ -465,6 +465,46 @@ func runC03(env *core.Env) {
 			n++
 			if env.Mine(n) {
 				c03Prog(env, "aliasing-program", src, tn, seed, rich)
+			}
+		}
+	}
+	// every function of the table x receivers x non-literal / aliasing arguments (arity 0..3): a function that
+	// writes into its argument nodes, or adopts an argument's collection as its result buffer, shows here
+	recvs := []string{"%kids", "%names", "%multi", "%fstr", "'5'", "5", "%r", "%e", "%sub", "Patient.name"}
+	a1 := []string{"%sub", "%kids.take(1)", "%e", "%kids", "%fstr", "%ucum", "%fint", "%fbool", "$this", "%context.id", "%name", "%multis.first()", "1", "'a'", "%multi.take(1)", "%kids.skip(1)"}
+	a2 := []string{"%sub", "%e", "%fstr", "%fint", "$this", "%multi.take(1)"}
+	a3 := []string{"%sub", "%fstr", "%fint"}
+	var argLists []string
+	argLists = append(argLists, "")
+	argLists = append(argLists, a1...)
+	for _, x := range a2 {
+		for _, y := range a2 {
+			argLists = append(argLists, x+", "+y)
+		}
+	}
+	for _, x := range a3 {
+		for _, y := range a3 {
+			for _, z := range a3 {
+				argLists = append(argLists, x+", "+y+", "+z)
+			}
+		}
+	}
+	tabTypes := []string{""}
+	if !env.Quick() {
+		for k := 0; k < 6; k++ {
+			tabTypes = append(tabTypes, string(types[(k*29+3)%len(types)].Name()))
+		}
+	}
+	for ti, tn := range tabTypes {
+		seed := rng.Next() % 100000
+		for _, f := range names {
+			for _, rc := range recvs {
+				for _, al := range argLists {
+					n++
+					if env.Mine(n) {
+						c03Prog(env, "table-args", rc+"."+f+"("+al+")", tn, seed, ti%2 == 1)
+					}
+				}
 			}
 		}
 	}
